@@ -1,10 +1,10 @@
 SPECIFICATION Spec
-CONSTANTS Spellings <- SpellingsAll
+CONSTANTS Spellings <- Spellings4
           Probes <- ProbesSmall
           Unkeyed <- NoFns
-          CliOpts <- NoCli
-          CliEnvs <- NoCli
+          CliOpts <- CliO
+          CliEnvs <- CliE
           EnvOverridesOption <- Off
-          MaxDepth = 4
+          MaxDepth = 2
 INVARIANT EmitGen
 CHECK_DEADLOCK FALSE
